@@ -109,7 +109,12 @@ def _case_strategy(holder):
             c["stored"] = draw(st.sampled_from(["sorted", "reverse", "random"]))
         if holder == "sumtensor":
             c["sum_sparse"] = draw(st.booleans())
-        inits = ["normal", "uniform", "random", "nvecs"] if holder != "sumtensor" else ["normal", "uniform", "random"]
+        if holder == "sumtensor":  # nvecs is documented as unsupported for sum tensors
+            inits = ["normal", "uniform", "random"]
+        elif holder == "sptensor":  # known findings C09-F1/F2 abort most sparse 'nvecs' cases: reduced rate
+            inits = ["normal", "uniform", "random"] * 3 + ["nvecs"]
+        else:
+            inits = ["normal", "uniform", "random", "nvecs"]
         c["init"] = draw(st.sampled_from(inits))
         c["init_seed"] = draw(st.integers(0, 10**6))
         c["init_weights"] = draw(st.sampled_from(["unit", "unit", "unit", "nonunit"]))
@@ -403,23 +408,23 @@ def printed_delta_ok(printed, value):
 # --------------------------------------------------------------------------
 
 
-@cell("C09/cp_als/tensor", strategy=_case_strategy("tensor"), quick=600, thorough=16000, shards=(4, 16))
+@cell("C09/cp_als/tensor", strategy=_case_strategy("tensor"), quick=600, thorough=6000, shards=(4, 16))
 def cp_als_tensor(ctx, case):
     _body(ctx, case)
 
 
-@cell("C09/cp_als/sptensor", strategy=_case_strategy("sptensor"), quick=400, thorough=8000, shards=(4, 16))
+@cell("C09/cp_als/sptensor", strategy=_case_strategy("sptensor"), quick=400, thorough=3000, shards=(4, 16))
 def cp_als_sptensor(ctx, case):
     ctx.label(f"density-{case['density']}", "stored-" + case["stored"])
     _body(ctx, case)
 
 
-@cell("C09/cp_als/ttensor", strategy=_case_strategy("ttensor"), quick=400, thorough=10000, shards=(4, 16))
+@cell("C09/cp_als/ttensor", strategy=_case_strategy("ttensor"), quick=400, thorough=3500, shards=(4, 16))
 def cp_als_ttensor(ctx, case):
     _body(ctx, case)
 
 
-@cell("C09/cp_als/sumtensor", strategy=_case_strategy("sumtensor"), quick=400, thorough=10000, shards=(4, 16))
+@cell("C09/cp_als/sumtensor", strategy=_case_strategy("sumtensor"), quick=400, thorough=3500, shards=(4, 16))
 def cp_als_sumtensor(ctx, case):
     ctx.label("three-parts" if case.get("sum_sparse") else "two-parts")
     _body(ctx, case)
